@@ -9,11 +9,12 @@ namespace CashewsVerif.Disable
 open CashewsVerif.Route
 
 /-- a call of the on-remove callback is in order: it is `set_remove` of one tag key, handed directly to
-the backend registered for `_tag:`, which has `set_remove` enabled in the caller's context -/
+the backend registered under the longest prefix of that tag key, which has `set_remove` enabled in the
+caller's context -/
 def CbOk (t : Table) (w : World) (c : Nat) (cl : Call) : Prop :=
   cl.cmd = .setRemove ∧ cl.target = .raw cl.target.backend ∧
-  t.getBackend tagPrefix = some cl.target.backend ∧
-  isDisable w c cl.target.backend [.setRemove] = false ∧ ∃ tag, cl.keys = [tagKey tag]
+  isDisable w c cl.target.backend [.setRemove] = false ∧
+  ∃ tag, cl.keys = [tagKey tag] ∧ t.getBackend (tagKey tag) = some cl.target.backend
 
 /-- a backend call issued under the facade command `f` is in order: the receiver is registered, has
 `f` enabled in the caller's context and is the longest-prefix backend of every key handed over -/
@@ -25,22 +26,28 @@ def EvOk (t : Table) (w : World) (c : Nat) : PEv → Prop
   | .sub f calls cbs => (∀ bc ∈ calls, BcOk t w c f bc) ∧ ∀ cl ∈ cbs, CbOk t w c cl
   | .body => True
 
-theorem removeCallback_ok {t : Table} {w : World} {c : Nat} {tags : List (List Nat)} {cs : List Call}
-    (h : removeCallback t w c tags = some cs) : ∀ cl ∈ cs, CbOk t w c cl := by
-  unfold removeCallback at h
-  split at h
-  · cases h
+theorem removeCallback_ok {t : Table} {w : World} {c : Nat} :
+    ∀ {tags : List (List Nat)} {cs : List Call}, removeCallback t w c tags = some cs → ∀ cl ∈ cs, CbOk t w c cl
+  | [], cs, h => by
+    simp only [removeCallback, Option.some.injEq] at h
+    subst h
     simp
-  · split at h
+  | tag :: r, cs, h => by
+    simp only [removeCallback] at h
+    split at h
     · cases h
     · rename_i tb htb
-      cases h
+      simp only [Option.map_eq_some_iff] at h
+      obtain ⟨rest, hrest, rfl⟩ := h
+      have ih := removeCallback_ok hrest
       intro cl hcl
       by_cases hd : isDisable w c tb [.setRemove] = true
-      · simp [hd] at hcl
-      · simp only [hd, Bool.false_eq_true, if_false, List.mem_map] at hcl
-        obtain ⟨tag, _, rfl⟩ := hcl
-        exact ⟨rfl, rfl, htb, by simpa [Target.backend] using hd, tag, rfl⟩
+      · simp only [hd, if_true] at hcl
+        exact ih cl hcl
+      · simp only [hd, Bool.false_eq_true, if_false, List.mem_cons] at hcl
+        rcases hcl with rfl | hcl
+        · exact ⟨rfl, rfl, by simpa [Target.backend] using hd, tag, rfl, htb⟩
+        · exact ih cl hcl
 
 theorem callbacksOf_ok {t : Table} {w : World} {c : Nat} :
     ∀ {inv : List (List (List Nat))} {cs : List Call}, callbacksOf t w c inv = some cs →
